@@ -32,6 +32,14 @@ func newCache[H Hash]() cache[H] {
 }
 
 func (c *cache[H]) getHeight(h uint32) *inbox[H] {
+	// Messages cached for heights that were skipped (the ledger was synchronized
+	// by other means) can never be used, drop them.
+	for old := range c.mail {
+		if old < h {
+			delete(c.mail, old)
+		}
+	}
+
 	if m, ok := c.mail[h]; ok {
 		delete(c.mail, h)
 		return m
